@@ -89,6 +89,37 @@ def ctor_calls_in_templates(fn: ast.AST, prefix: str) -> List[Tuple[str, List[st
     return out
 
 
+def ctor_calls_in_text(text: str, prefix: str) -> List[Tuple[str, List[str]]]:
+    """(constructor name, argument texts) for every `prefix.Name(` in text"""
+    out = []
+    for mm in re.finditer(r"(?<![A-Za-z0-9_.])" + re.escape(prefix) + r"([A-Za-z_][A-Za-z0-9_]*)\(", text):
+        start = mm.end()
+        depth, i = 1, start
+        while i < len(text) and depth:
+            if text[i] == "(":
+                depth += 1
+            elif text[i] == ")":
+                depth -= 1
+            i += 1
+        if depth == 0:
+            out.append((mm.group(1), split_args(text[start : i - 1])))
+    return out
+
+
+def site_texts(repo: Repo, relsfx: str, qual: str) -> List[str]:
+    """Emitted / returned texts of a template site, from the path engine:
+    formatter methods -> returned texts; block methods -> pushed lines (joined)."""
+    from .emit import class_emissions, formatter_returns
+
+    cls, meth = qual.split(".", 1)
+    if "formatter.py" in relsfx:
+        return formatter_returns(repo, relsfx, cls, meth)
+    em = class_emissions(repo, relsfx, method=meth, named="plain")
+    if cls not in em:
+        raise Inconclusive(f"{qual}: emission not computable")
+    return ["\n".join(em[cls])]
+
+
 def local_value(fn: ast.AST, name: str) -> Optional[str]:
     vals = [src_of(n.value) for n in ast.walk(fn) if isinstance(n, ast.Assign) and len(n.targets) == 1 and isinstance(n.targets[0], ast.Name) and n.targets[0].id == name]
     return vals[0] if len(vals) == 1 else None
@@ -137,13 +168,13 @@ def c4(repo: Repo) -> RuleResult:
     def check_site(lang: str, fi, ctor: str, args: List[str], params: List[str], fixed: Dict[str, str]) -> None:
         roles = []
         for a in args:
-            mm = re.fullmatch(r"\{([A-Za-z_][A-Za-z0-9_]*)\}", a)
-            if mm:
-                v = local_value(fi.node, mm.group(1))
-                r = role_of(v) if v else None
-                roles.append(r or f"?{mm.group(1)}={v}")
+            r = role_of(a)
+            if r is not None:
+                roles.append(r)
             elif a in fixed:
                 roles.append(fixed[a])
+            elif "self." in a or "(" in a:
+                roles.append(f"?{a}")
             else:
                 roles.append(f"lit:{a}")
         res.inst(part=lang, site=fi.qual, ctor=ctor, roles=roles, runtime_params=params)
@@ -159,12 +190,32 @@ def c4(repo: Repo) -> RuleResult:
             if r.startswith("lit:"):
                 continue
             if p not in ROLE_EQUIV.get(r, {r}):
-                f = Finding("C4", fi.rel, fi.node.lineno, fi.qual, f"{ctor}({', '.join(args)})", f"argument {k + 1} carries `{r}` but the runtime's parameter {k + 1} is `{p}`", witness="the processor tree is built with swapped extensible/capacity/nbits/field-number values", tag=f"{lang}:{fi.qual}:{ctor}:{k}")
+                f = Finding("C4", fi.rel, fi.node.lineno, fi.qual, f"{ctor}({', '.join(args)})", f"argument {k + 1} carries `{r}` but the runtime's parameter {k + 1} means `{p}`", witness="the processor tree is built with swapped extensible/capacity/nbits: wrong layout", tag=f"{lang}:{fi.qual}:{ctor}:{k}")
                 f.part = lang
                 res.bad(f)
 
+    def runtime_roles(lang: str, L, cls: str) -> Optional[List[str]]:
+        """what each constructor position of the runtime class means: the role
+        the field it is stored in plays in the processors (those are judged
+        by D3 / C3 / D7 under exactly this positional naming)"""
+        from .rules_d2 import ROLE_AT, ctor_fields
+
+        fields = ctor_fields(L, cls)
+        roles_ = ROLE_AT[cls]
+        res.inst(part=lang, site=cls, constructor_fields=fields, roles=roles_)
+        if len(fields) != len(roles_) or any(f_ is None for f_ in fields):
+            f = Finding("C4", L.rel, 0, cls, str(fields), f"the constructor of {cls} takes / stores {fields}; the generators pass {roles_}", tag=f"{lang}:{cls}:ctor")
+            f.part = lang
+            res.bad(f)
+            return None
+        return list(roles_)
+
     # ---- Python
+    from .flows import go_runtime, py_runtime
+    from .rules_d2 import ROLE_AT
+
     pparams = py_runtime_ctor_params(repo)
+    PL = py_runtime(repo)
     sites = [
         ("impls/py/formatter.py", "PyFormatter.format_processor_array"),
         ("impls/py/formatter.py", "PyFormatter.format_processor_int"),
@@ -180,24 +231,44 @@ def c4(repo: Repo) -> RuleResult:
         except Inconclusive as e:
             res.unsure(f"C4: {e}")
             continue
-        calls = [c for c in ctor_calls_in_templates(fi.node, "bp.") if c[0] in pparams and c[0] not in ("Processor",)]
+        try:
+            calls = [c for t_ in site_texts(repo, relsfx, qual) for c in ctor_calls_in_text(t_, "bp.") if c[0] in pparams and c[0] not in ("Processor",)]
+        except Inconclusive as e:
+            res.unsure(f"C4: {e}")
+            continue
         if not calls:
             res.unsure(f"C4: {qual}: no bp.<Constructor>( template found")
             continue
-        for ctor, args, node in calls:
-            params = [p for p in pparams[ctor]]
-            check_site("py", fi, ctor, args, params, {"field_processors": "field_processors"})
+        for ctor, args in calls:
+            if ctor not in ROLE_AT:
+                continue
+            try:
+                params = runtime_roles("py", PL, ctor)
+            except Inconclusive as e:
+                res.unsure(f"C4: {e}")
+                continue
+            if params is not None:
+                check_site("py", fi, ctor, args, params, {"field_processors": "field_processors"})
     # encode/decode contexts
     for qual, flag in (("BlockMessageMethodEncode.render", "True"), ("BlockMessageMethodDecode.render", "False")):
         fi = m.func("impls/py/renderer.py", qual)
-        calls = [c for c in ctor_calls_in_templates(fi.node, "bp.") if c[0] == "ProcessContext"]
+        try:
+            t = "\n".join(site_texts(repo, "impls/py/renderer.py", qual))
+        except Inconclusive as e:
+            res.unsure(f"C4: {e}")
+            continue
+        calls = [c for c in ctor_calls_in_text(t, "bp.") if c[0] == "ProcessContext"]
         res.inst(part="py", site=qual, ctor="ProcessContext", args=[c[1] for c in calls])
-        if len(calls) != 1 or calls[0][1] != [flag, "s"] or pparams.get("ProcessContext", [])[:2] != ["is_encode", "s"]:
+        ctx_var = None
+        mm_ = re.search(r"^\s*(\w+) = bp\.ProcessContext\(", t, re.M)
+        if mm_:
+            ctx_var = mm_.group(1)
+        buf = calls[0][1][1] if len(calls) == 1 and len(calls[0][1]) == 2 else None
+        if len(calls) != 1 or calls[0][1][:1] != [flag] or buf is None or not re.fullmatch(r"\w+", buf) or pparams.get("ProcessContext", [])[:2] != ["is_encode", "s"]:
             f = Finding("C4", fi.rel, fi.node.lineno, qual, str(calls), f"the process context is not constructed as ProcessContext({flag}, s) against fields {pparams.get('ProcessContext')}", witness="encode() runs in decode mode", tag=f"py:{qual}:ctx")
             f.part = "py"
             res.bad(f)
-        t = "\n".join(_fstring_shape(n) for n in ast.walk(fi.node) if isinstance(n, ast.JoinedStr))
-        if "self.bp_processor().process(ctx, bp.NIL_DATA_INDEXER, self)" not in t:
+        if ctx_var is None or f"self.bp_processor().process({ctx_var}, bp.NIL_DATA_INDEXER, self)" not in t:
             f = Finding("C4", fi.rel, fi.node.lineno, qual, "", "the top-level processor is not started as process(ctx, NIL_DATA_INDEXER, self)", tag=f"py:{qual}:start")
             f.part = "py"
             res.bad(f)
@@ -205,17 +276,25 @@ def c4(repo: Repo) -> RuleResult:
     # ---- Go
     try:
         gparams = go_runtime_ctor_params(repo)
-        for name, (params, fields, lit) in gparams.items():
-            if lit is None or not fields:
+        GL = go_runtime(repo)
+        # the contexts start at bit 0 in the right mode
+        from .pyflow import new_parts as _np
+
+        for cname, enc in (("NewEncodeContext", 1), ("NewDecodeContext", 0)):
+            fn_ = GL.funcs.get(cname)
+            if fn_ is None:
+                res.unsure(f"C4: go: {cname} vanished")
                 continue
-            res.inst(part="go", site=name, params=params, struct_fields=fields, literal=lit)
-            # positional composite literal: k-th element is the parameter that means the k-th field
-            if len(lit) == len(fields) and all(x in params for x in lit):
-                for k, (x, fld) in enumerate(zip(lit, fields)):
-                    if x.lower() != fld.lower():
-                        f = Finding("C4", "lib/go/bitproto.go", 0, name, str(lit), f"element {k + 1} of the struct literal is parameter `{x}` but the struct's field {k + 1} is `{fld}`", witness="extensible/capacity/nbits swapped inside the Go runtime", tag=f"go:{name}:literal:{k}")
-                        f.part = "go"
-                        res.bad(f)
+            for p_ in GL.flow().run(fn_):
+                np_ = _np(p_.ret) if p_.ret is not None else None
+                res.inst(part="go", site=cname, literal={k_: str(v_) for k_, v_ in (np_[1].items() if np_ else [])})
+                if np_ is None or np_[0] != "ProcessContext":
+                    res.unsure(f"C4: go: {cname} does not return a ProcessContext literal")
+                    continue
+                if np_[1].get("isEncode") is None or np_[1]["isEncode"].const_value() != enc or np_[1].get("i") is None or np_[1]["i"].const_value() != 0:
+                    f = Finding("C4", "lib/go/bitproto.go", fn_.lineno, cname, str({k_: str(v_) for k_, v_ in np_[1].items()}), f"{cname} does not start a context with isEncode={bool(enc)} at bit 0", tag=f"go:{cname}")
+                    f.part = "go"
+                    res.bad(f)
         gsites = [
             ("impls/go/formatter.py", "GoFormatter.format_processor_array", "NewArray"),
             ("impls/go/formatter.py", "GoFormatter.format_processor_int", "NewInt"),
@@ -231,13 +310,23 @@ def c4(repo: Repo) -> RuleResult:
             except Inconclusive as e:
                 res.unsure(f"C4: {e}")
                 continue
-            calls = [c for c in ctor_calls_in_templates(fi.node, "bp.") if c[0] == ctor]
+            try:
+                calls = [c for t_ in site_texts(repo, relsfx, qual) for c in ctor_calls_in_text(t_, "bp.") if c[0] == ctor]
+            except Inconclusive as e:
+                res.unsure(f"C4: {e}")
+                continue
             if len(calls) != 1 or ctor not in gparams:
                 res.unsure(f"C4: {qual}: bp.{ctor}( template / runtime function not found")
                 continue
             # local names in go renderer differ: uint/processor/to
             args = calls[0][1]
-            check_site("go", fi, ctor, args, gparams[ctor][0], {"fieldDescriptors": "field_processors"})
+            try:
+                params = runtime_roles("go", GL, ctor[3:])
+            except Inconclusive as e:
+                res.unsure(f"C4: {e}")
+                continue
+            if params is not None:
+                check_site("go", fi, ctor, args, params, {"fieldDescriptors": "field_processors"})
     except Inconclusive as e:
         res.unsure(f"C4: go: {e}")
     return res
@@ -247,6 +336,49 @@ def c4(repo: Repo) -> RuleResult:
 ROLE_PATTERNS += [
     (r"^self\.formatter\.format_processor_uint\(self\.d\.type\)$", "ut"),
 ]
+
+
+def _pathwise_equal(repo: Repo, pn: str, gn: str, params: List[str]) -> str:
+    """'equal' | 'unknown: ...' for two pure helpers, by pairs of paths of the
+    path engine: a pair is skipped when its guards are contradictory, and
+    otherwise both returned values must bound each other under the guards."""
+    from .flows import go_runtime, py_runtime
+    from .normal import V, show
+    from .numeric import Facts, interval, prove_le
+
+    try:
+        PL, GL = py_runtime(repo), go_runtime(repo)
+        fa, fb = PL.func(pn), GL.func(gn)
+        pa = [p for p in PL.flow().run(fa, {a.arg: V(n) for a, n in zip(fa.args.args, params)}) if p.done == "return"]
+        pb = [p for p in GL.flow().run(fb, {a.arg: V(n) for a, n in zip(fb.args.args, params)}) if p.done == "return"]
+    except Inconclusive as e:
+        return f"unknown: {e}"
+    if not pa or not pb:
+        return "unknown: no return path"
+    for x in pa:
+        for y in pb:
+            if x.ret is None or y.ret is None:
+                return "unknown: a path returns nothing"
+            facts = Facts()
+            for k, tr in list(x.guards) + list(y.guards):
+                if k[0] != "cmp":
+                    return f"unknown: guard {k[0]} is not a comparison"
+                op, d = k[1], k[2]
+                if op == "<":
+                    facts.assume(d, -float("inf"), -1) if tr else facts.assume(d, 0, float("inf"))
+                elif op == "<=":
+                    facts.assume(d, -float("inf"), 0) if tr else facts.assume(d, 1, float("inf"))
+                elif op == "==" and tr:
+                    facts.assume(d, 0, 0)
+            if any(interval(q, facts)[0] > interval(q, facts)[1] for q in list(facts.polys.values())):
+                continue  # the two paths exclude each other
+            if x.ret == y.ret:
+                continue
+            ok1, _ = prove_le(x.ret, y.ret, facts)
+            ok2, _ = prove_le(y.ret, x.ret, facts)
+            if not (ok1 and ok2):
+                return f"unknown: `{show(x.ret)}` vs `{show(y.ret)}` under {[t for t in facts.text]}"
+    return "equal"
 
 
 @rule("G1", "the Go runtime's pure helpers reach the same normal forms as the Python runtime's")
@@ -276,6 +408,16 @@ def g1(repo: Repo) -> RuleResult:
         a = plw.inline(pf[pn], args, 0)
         b = glw.inline(g.funcs[gn], args, 0)
         res.inst(python=pn, go=gn, python_form=show(a), go_form=show(b))
+        if a != b and any(at[0] in ("opaque", "ite") for at in a.atoms() + b.atoms()):
+            # one side is not a single normal form (statement-level branching): compare path by path,
+            # each pair of jointly feasible paths must return provably equal values
+            verdict = _pathwise_equal(repo, pn, gn, params)
+            res.inst(python=pn, go=gn, pathwise=verdict)
+            if verdict == "equal":
+                continue
+            if verdict.startswith("differs:"):
+                res.bad(Finding("G1", GO_RT, g.funcs[gn].line, gn, verdict[8:], f"Go {gn} and Python {pn} return different values on a jointly feasible pair of paths: {verdict[8:]}", witness="the Go helper returns a different value for some argument", tag=f"{gn}:pathwise"))
+                continue
         if a != b:
             if any(at[0] in ("opaque", "ite") for at in a.atoms() + b.atoms()):
                 res.unsure(f"G1: {pn} / {gn}: a form is outside the normaliser's theory ({show(a)} vs {show(b)})")
